@@ -20,6 +20,19 @@ if [ "$REPO" != /repo ]; then
   MODARGS=(-modfile="$BIN/go.mod")
   OVERLAY="$BIN/overlay.json"
 fi
+# development aid: MC_SKIP="c15 c16" leaves out internal/checks/c15*.go, c16*.go (files another session is editing)
+if [ -n "${MC_SKIP:-}" ]; then
+  BIN=/verif/bin/skip-$(echo "$MC_SKIP$REPO" | md5sum | cut -c1-8); mkdir -p "$BIN"
+  python3 - "$OVERLAY" "$BIN/overlay.json" $MC_SKIP <<'PY'
+import json,sys,glob
+o=json.load(open(sys.argv[1]))
+for k in sys.argv[3:]:
+    for f in glob.glob('/verif/mc/internal/checks/%s*.go'%k):
+        o["Replace"][f]=""
+json.dump(o,open(sys.argv[2],'w'))
+PY
+  OVERLAY="$BIN/overlay.json"
+fi
 export VERIF_REPO=$REPO VERIF_BIN=$BIN
 mkdir -p "$BIN" /verif/evidence
 build_mc() {
